@@ -5,6 +5,7 @@ import random
 
 from . import concrete as C
 from . import ir as X
+from .native import NonTermination
 
 
 def search(P, name, prop, seed, budget=200):
@@ -161,11 +162,13 @@ def _c15(P, name, decl, rng):
         for ch in (False, True):
             if P.ctx[name] and not ch:
                 continue
-            r = P.EoReader(data[:cut])
+            r = P.counting_reader(data[:cut])
             r.chunked_reading_mode = ch
             try:
                 P.cls(name).deserialize(r)
                 o = "ok"
+            except NonTermination:
+                continue            # C03's concern (and a listed known finding there), not a mode question
             except Exception as e:
                 o = repr(e)
             n += 1
@@ -215,10 +218,12 @@ def _c19(P, name, decl, rng):
     if before != after:
         return {"kind": "serialize-not-deterministic", "property": "C19"}, n
     # deserialized instances alike
-    r = P.EoReader(before)
+    r = P.counting_reader(before)
     r.chunked_reading_mode = P.ctx[name]
     try:
         back = P.cls(name).deserialize(r)
+    except NonTermination:
+        return None, n          # C03's concern (and a listed known finding there)
     except Exception:
         return None, n
     try:
